@@ -43,7 +43,7 @@ _TOKEN_NOTE = ("Trusted: Lean kernel; Model/Envelope.lean and Model/Token.lean r
 
 def _container_filter(c18):
     """C18 owns faults, truncations and the writer contract; C17 owns round trips and corruptions."""
-    c18_markers = ("container.truncated", "container.read-fault", "container.write:", "token.stream:")
+    c18_markers = ("container.truncated", "container.read-fault", "container.write:", "token.stream:", "cidstream.")
     def f(pid, d):
         cl = d.get("class", "")
         is18 = cl.startswith(c18_markers)
@@ -157,7 +157,7 @@ PROPS = {
     ),
     "C08": dict(
         props_module="Ucan.Props.C08",
-        streams=["sealed", "container"],
+        streams=["sealed", "container", "cidstream"],
         # of the container stream: the cases whose point is WHICH CID a token is known under after a read (a block labelled with
         # another codec, hash or an earlier block's CID) — the token's identifier is the one of its sealed bytes, whatever the label says
         filter=lambda pid, d: d.get("stream") != "container" or any(t in d.get("class", "") for t in ("foreign-cid", "mislabelled")),
@@ -214,7 +214,7 @@ PROPS = {
     ),
     "C18": dict(
         props_module="Ucan.Props.C18",
-        streams=["container"],
+        streams=["container", "cidstream"],
         filter=_container_filter(True),
         technique="Lean 4 proofs over byte sources that end in eof or fault: a faulting source never yields a result (induction over the block loop); a truncated CAR is an error or, exactly on a block boundary, the blocks before the cut (lemma: a proper prefix of a varint never reads; a proper prefix of a section is an unexpected EOF); tied by truncation and read faults at every offset, write faults at every write call incl. the final base64 flush, and CID/bytes equality of the streaming and buffered token APIs under several chunkings",
         level_text="C18_fault_car, C18_fault_cbor, ldRead_prefix, C18_truncation_car (for every prefix of every written CAR). Streaming = buffered holds by construction in the model (one function of the byte source). Go: every (every 3rd, quick) truncation offset and read-fault offset of written containers in 4 formats through 3 reader variants; every write call failing for all 8 writers; FromSealedReader/ToSealedWriter of single tokens cut/failing at every offset/call, CIDs compared with the buffered calls. Partial: truncation of the CBOR container and of single tokens (always an error) is covered by the stream only — the prefix-freeness lemma for the lenient decoder on truncated input is not proved yet.",
